@@ -83,10 +83,12 @@ structure VeitchCfg (α : Type) (n : Nat) where
 /-- `alpha = 1 - target_rate` if the last step was accepted, `-target_rate` otherwise. -/
 def veitchAlpha (xi : α) (accepted : Bool) : α := if accepted then 1 - xi else -xi
 
-/-- One component: `newsigma = sigma + alpha*g*delta/10`, kept only if not `< 0`. -/
+/-- One component: `newsigma = sigma + alpha*g*delta/10`, installed only if it is `> 0`
+    (`lzidx = newsigmas <= 0; newsigmas[lzidx] = sigmas[lzidx]`): a step that would make the
+    width negative OR ZERO leaves that width unchanged. -/
 def veitchComp (alpha g d s : α) : α :=
   let n := s + alpha * g * d / 10
-  if n < 0 then s else n
+  if n ≤ 0 then s else n
 
 def veitchBody {n : Nat} (c : VeitchCfg α n) (accepted : Bool) (dk : Int) (std : Vector α n) :
     Vector α n :=
